@@ -18,6 +18,7 @@ import (
 //	  7 Values[a]=b (if in range); FromSlice / Init   8 PopAll, stop after a values (a <= 0: never)
 //	kind 1 two Heaps h0, h1 sharing one population of handles (handle = creation number):
 //	  0 Push(h=a, v=b) 1 Pop(h) 2 Peek(h) 3 Len(h) 4 h.Remove(handle b) 5 h.Fix(handle b)
+//	  0 Push (every second element: a caller-built &Element{Value: v} handed to PushElement)
 //	  6 handle a: Value = b/2; heaps[b%2].Fix; heaps[1-b%2].Fix   7 h.PushElement(handle b) if it reports Index() == -1
 //	  8 h.Init(k = b%16 values, base-5 digits of b/16)   9 h.PopAll, stop after b values   10 handle a: index field := b (unsafe)
 //
@@ -238,7 +239,15 @@ func c04Impl(in []int64) []int64 {
 			h := hsel(a)
 			switch c {
 			case 0:
-				e := hs[h].Push(b*1000 + int64(len(handles)))
+				// every second element is built by the caller (a literal that has never been in a heap) and handed to
+				// PushElement, which is what Push itself does: the two forms must be indistinguishable
+				var e *heapz.Element[int64]
+				if len(handles)%2 == 1 {
+					e = &heapz.Element[int64]{Value: b*1000 + int64(len(handles))}
+					hs[h].PushElement(e)
+				} else {
+					e = hs[h].Push(b*1000 + int64(len(handles)))
+				}
 				ids[e] = int64(len(handles))
 				handles = append(handles, e)
 			case 1:
@@ -757,5 +766,5 @@ func c04Gen(c *Ctx) {
 func init() {
 	Register(&Prop{ID: "C04", Pure: true, JudgeLimit: 600, Num: 4, SpecMode: "rel", Gen: c04Gen, Impl: c04Impl,
 		Shrink: c04Shrink, Describe: c04Describe,
-		Rule: "values v*1000+id with v in 0..4 compared on v only (ties everywhere). exhaustive: every op sequence up to the tier's length over boundary alphabets (Push/Pop/Peek/Remove/Fix/SetFix/ReInit/PopAll, indices -1..9; for Heap: two heaps, live/stale/foreign/unknown handles, PushElement, Init) from several initial heaps; random: 3-60 ops, Slice / generic functions / Heap handles; deep heaps (12-60 elements over keys 0..99, Remove/Fix/SetFix at inner positions, drain); generic functions outside their contract (wild index, Pop on empty: panics must agree with the model); Heap index field overwritten (panic branch). Compared exactly after every op: results, Slice.Values / container, Index() of every handle. distinct = distinct case; non-trivial = at least 3 (exhaustive: 2) operations of at least 2 kinds"})
+		Rule: "values v*1000+id with v in 0..4 compared on v only (ties everywhere). exhaustive: every op sequence up to the tier's length over boundary alphabets (Push/Pop/Peek/Remove/Fix/SetFix/ReInit/PopAll, indices -1..9; for Heap: two heaps, live/stale/foreign/unknown handles, PushElement of old handles and of caller-built Element literals, Init) from several initial heaps; random: 3-60 ops, Slice / generic functions / Heap handles; deep heaps (12-60 elements over keys 0..99, Remove/Fix/SetFix at inner positions, drain); generic functions outside their contract (wild index, Pop on empty: panics must agree with the model); Heap index field overwritten (panic branch). Compared exactly after every op: results, Slice.Values / container, Index() of every handle. distinct = distinct case; non-trivial = at least 3 (exhaustive: 2) operations of at least 2 kinds"})
 }
